@@ -9,7 +9,7 @@
    implementation and by byte-exact correspondence of the session model, not by a theorem (DESIGN.md, C01). *)
 From Coq Require Import ZArith List Bool.
 From Coq Require String.
-Require Import PyLib SuiteTypes Crypto KeySchedule Packet Reassembly Decryptor TlsSession TlsRecords C01P Hs13P C01SessionP C01Session12P C01SessionLegacyP HelloP Fresh12P PlainHsP.
+Require Import PyLib SuiteTypes Crypto KeySchedule Packet Reassembly Decryptor TlsSession TlsRecords C01P Hs13P C01SessionP C01Session12P C01SessionLegacyP HelloP Fresh12P PlainHsP Keys12P.
 Import ListNotations.
 Open Scope Z_scope.
 
@@ -332,3 +332,50 @@ Example C01_plain_handshake_example :
   concat ps = stream ms /\ run_flight (0, []) ps = [(0, []); (0, [11; 0]); (4, []); (0, [])] /\
   map (boundary ms) (offsets 0 ps) = [true; false; false; true] /\ map (type_at ms) (offsets 0 ps) = [Some 2; None; None; Some 14].
 Proof. vm_compute. repeat split; reflexivity. Qed.
+
+(* ---------------- from the ServerHello to the decryptor, SSL 3.0 - TLS 1.2 ---------------- *)
+(* The suite is in the table, the key log has a line for this client random and the derivation (C15: master secret, key block) yields a
+   key set: generate_keys installs the decryptor built from it, which is in step with fresh senders holding the same keys -- the
+   premise (Inv12 / Qrc4 / Qcbce / Qcbcc) of the session theorem of the suite's protection class.  Together with
+   C01_server_hello_parsed (what is read from the ServerHello), C01_plain_handshake_* (which record is read as the ServerHello) and the
+   *_session theorems this is the chain  hellos -> keys -> ChangeCipherSpec -> Finished -> application data. *)
+Theorem C01_tls12_keys_installed_aead : forall C tbl parts keylog s v suite sr cs a x xs k stc sts n,
+  SuiteParser.split_cipher_suite tbl parts (from_be suite) = Some cs -> find_session_secrets keylog s = x :: xs ->
+  derive_session_keys C v cs (x :: xs) (ts_client_random s) sr = Ok (K12 k) ->
+  algo_of cs = Some a -> a = AESGCM \/ a = AESCCM -> v <> TLS13 -> ts_compression s = 0 -> ss_seq stc = 0 -> ss_seq sts = 0 -> Z.of_nat n <= 2 ^ 64 ->
+  exists d, generate_keys C tbl parts keylog s v suite sr = Ok (set_dec s (Some d)) /\ C01Session12P.class12 a d /\
+            P12 false (client_key k) (client_iv k) (s_tag cs) n d stc /\ P12 true (server_key k) (server_iv k) (s_tag cs) n d sts.
+Proof. exact keys_installed_aead. Qed.
+Theorem C01_tls12_keys_installed_chacha : forall C tbl parts keylog s suite sr cs x xs k stc sts n,
+  SuiteParser.split_cipher_suite tbl parts (from_be suite) = Some cs -> find_session_secrets keylog s = x :: xs ->
+  derive_session_keys C TLS12 cs (x :: xs) (ts_client_random s) sr = Ok (K12 k) ->
+  algo_of cs = Some ChaCha20Poly1305 -> ts_compression s = 0 -> ss_seq stc = 0 -> ss_seq sts = 0 -> Z.of_nat n <= 2 ^ 64 ->
+  exists d, generate_keys C tbl parts keylog s TLS12 suite sr = Ok (set_dec s (Some d)) /\ Chacha.class12 d /\
+            P12 false (client_key k) (client_iv k) (s_tag cs) n d stc /\ P12 true (server_key k) (server_iv k) (s_tag cs) n d sts.
+Proof. exact keys_installed_chacha. Qed.
+Theorem C01_tls12_keys_installed_rc4 : forall C tbl parts keylog s v suite sr cs x xs k stc sts n,
+  SuiteParser.split_cipher_suite tbl parts (from_be suite) = Some cs -> find_session_secrets keylog s = x :: xs ->
+  derive_session_keys C v cs (x :: xs) (ts_client_random s) sr = Ok (K12 k) ->
+  algo_of cs = Some ARC4 -> v <> TLS13 -> 5 <= len (client_key k) <= 32 -> 5 <= len (server_key k) <= 32 -> 0 < digest_size (s_mac cs) -> ss_off stc = 0 -> ss_off sts = 0 ->
+  exists d, generate_keys C tbl parts keylog s v suite sr = Ok (set_dec s (Some d)) /\ Qrc4 (client_key k) (server_key k) (digest_size (s_mac cs)) n d stc sts.
+Proof. exact keys_installed_rc4. Qed.
+Theorem C01_tls12_keys_installed_cbc_explicit : forall C tbl parts keylog s v suite sr cs a x xs k stc sts n,
+  SuiteParser.split_cipher_suite tbl parts (from_be suite) = Some cs -> find_session_secrets keylog s = x :: xs ->
+  derive_session_keys C v cs (x :: xs) (ts_client_random s) sr = Ok (K12 k) ->
+  algo_of cs = Some a -> get_cipher_type (Some a) = CT_Block -> v = TLS12 \/ v = TLS11 -> ts_compression s = 0 -> 0 < digest_size (s_mac cs) ->
+  exists d, generate_keys C tbl parts keylog s v suite sr = Ok (set_dec s (Some d)) /\
+            Qcbce (client_key k) (server_key k) a (existsb (fun e => bytes_eqb (fst e) [0; 22]) (ts_extensions s)) (digest_size (s_mac cs)) n d stc sts.
+Proof. exact keys_installed_cbc_explicit. Qed.
+Theorem C01_tls12_keys_installed_cbc_chained : forall C tbl parts keylog s v suite sr cs a x xs k stc sts n,
+  SuiteParser.split_cipher_suite tbl parts (from_be suite) = Some cs -> find_session_secrets keylog s = x :: xs ->
+  derive_session_keys C v cs (x :: xs) (ts_client_random s) sr = Ok (K12 k) ->
+  algo_of cs = Some a -> get_cipher_type (Some a) = CT_Block -> v = TLS10 \/ v = SSL30 -> ts_compression s = 0 -> 0 < digest_size (s_mac cs) ->
+  ss_last stc = client_iv k -> ss_last sts = server_iv k ->
+  exists d, generate_keys C tbl parts keylog s v suite sr = Ok (set_dec s (Some d)) /\
+            Qcbcc (client_key k) (server_key k) a (existsb (fun e => bytes_eqb (fst e) [0; 22]) (ts_extensions s)) (digest_size (s_mac cs)) (block_size_of cs) n d stc sts.
+Proof. exact keys_installed_cbc_chained. Qed.
+Print Assumptions C01_tls12_keys_installed_aead.
+Print Assumptions C01_tls12_keys_installed_chacha.
+Print Assumptions C01_tls12_keys_installed_rc4.
+Print Assumptions C01_tls12_keys_installed_cbc_explicit.
+Print Assumptions C01_tls12_keys_installed_cbc_chained.
